@@ -18,13 +18,13 @@ _KV_SHAPES = ["ident", "field", "uint", "float", "bool", "str", "str_semi", "str
 FEATURES = {
     "path": ["bare", "qual"],
     "macro": [0, 1, 2, 3, 4],          # index into the configured macro set (modulo its length)
-    "target": ["none", "plain", "spacey", "colons", "punct", "slashes", "blockopen", "escq"],
+    "target": ["none", "plain", "spacey", "colons", "punct", "slashes", "blockopen", "escq", "trail_backslash"],
     "nkv": [0, 1, 2, 3],
     "kv0": list(_KV_SHAPES),
     "kv1": list(_KV_SHAPES),
     "kv2": list(_KV_SHAPES),
     "msg": ["plain", "placeholder", "escquote", "unicode", "reflike_inside", "commentish", "parens", "empty",
-            "braces", "bang", "macrotext", "lead_digit", "lead_bracket", "lead_space", "lead_backslash"],
+            "braces", "bang", "macrotext", "lead_digit", "lead_bracket", "lead_space", "lead_backslash", "trail_backslash"],
     "trail": ["none", "pos1", "pos2", "named", "str"],
     "lay": ["tight", "space", "nl", "nl0", "blockc", "linec", "tabs", "exotic"],
     "pre": ["bol", "indent", "brace", "semi", "arrow", "closure", "call", "stmt", "strlit", "charlit", "eq",
@@ -43,7 +43,7 @@ HAZARD = {
 }
 
 KV_KEYS = ["a", "b", "user_id", "k9", "_x", "naïve", "count", "r", "reference", "refx", "xref"]
-IDENTS = ["x", "val", "self_id", "n", "user", "cfg"]
+IDENTS = ["x", "val", "self_id", "n", "user", "cfg", "_tmp", "_"]
 
 
 def kv_text(shape, key, rnd):
@@ -57,7 +57,7 @@ def kv_text(shape, key, rnd):
         "str_semi": '%s = "%s"' % (key, rnd.choice(["a;b", ";", "x; y; z", 'ref = 5; '])),
         "str_eq": '%s = "%s"' % (key, rnd.choice(["x=y", "a = b", "==", "k=\\\"v\\\""])),
         "str_comma": '%s = "%s"' % (key, rnd.choice(["a,b", ",", "x, y", "ref = 5, "])),
-        "str_escq": '%s = "%s"' % (key, rnd.choice(['q\\"q', '\\"', 'say \\"hi\\"'])),
+        "str_escq": '%s = "%s"' % (key, rnd.choice(['q\\"q', '\\"', 'say \\"hi\\"', 'C:\\\\', 'a\\\\'])),
         "mod_q": "%s:? = %s" % (key, rnd.choice(IDENTS)),
         "mod_debug": "%s:debug = %s" % (key, rnd.choice(IDENTS)),
         "mod_pct": "%s:%% = %s" % (key, rnd.choice(IDENTS)),
@@ -94,6 +94,8 @@ def msg_text(cls, marker, rnd):
         "lead_bracket": "] closing first [ %s" % m,
         "lead_space": "  \t%s after layout" % m,
         "lead_backslash": "\\n%s after an escape \\t" % m,
+        # the literal ends in an escaped backslash (a Windows directory): the quote after it closes the literal
+        "trail_backslash": "%s cannot open C:\\\\spool\\\\" % m,
     }[cls]
 
 
@@ -143,7 +145,7 @@ def build_stmt(feat, marker, rnd, macros=None, eol="\n", ref_id=None, kv_ref=Non
     tgt = feat["target"]
     if tgt != "none":
         t = {"plain": "app", "spacey": "my app target", "colons": "app::db::pool", "punct": "a-b.c_d,e;f(g)",
-             "slashes": "http://svc", "blockopen": "glob/*", "escq": 'a\\"b'}[tgt]
+             "slashes": "http://svc", "blockopen": "glob/*", "escq": 'a\\"b', "trail_backslash": "dir\\\\"}[tgt]
         parts.append(("target", 'target:%s"%s"%s,' % (" " if feat["lay"] != "tight" else " ", t, L())))
         parts.append(("lay", L() or " "))
     parts.append(("after_target", ""))
@@ -439,6 +441,7 @@ def filler(rnd, eol):
         "let total = a + b * 2;",
         "struct P { x: i32, y: i32 }",
         "// an ordinary comment",
+        "// default location: C:\\ProgramData\\acme\\store\\",
         "/* a block comment */",
         "/** a starred banner **/",
         "/*********/",
